@@ -26,6 +26,8 @@ from __future__ import annotations
 
 import collections
 import os
+import shutil
+import weakref
 
 from vf import core, e2
 
@@ -207,19 +209,20 @@ def enabled_ops(m: Model, names, versions):
 # --------------------------------------------------------------------------
 # the real thing
 
-_FS = {"dir": None, "clock": 1_000_000}
+_FS = {"n": 0, "clock": 1_000_000}
+_ENVCLS = []
 
 
 def _fs_dir(base):
-    d = os.path.join(base, "w%d" % os.getpid())
-    if _FS["dir"] != d:
-        os.makedirs(d, exist_ok=True)
-        _FS["dir"] = d
+    """a fresh directory per system: e2 keeps two systems alive at once during merge checks"""
+    _FS["n"] += 1
+    d = os.path.join(base, "w%d" % os.getpid(), "s%d" % _FS["n"])
+    os.makedirs(d)
     return d
 
 
-class Impl:
-    def __init__(self, kind, size, auto_reload, names, base):
+def _counting_env():
+    if not _ENVCLS:
         import jinja2
 
         class CountingEnv(jinja2.Environment):
@@ -234,6 +237,15 @@ class Impl:
                 self.n__compile += 1
                 return super()._compile(*a, **kw)
 
+        _ENVCLS.append(CountingEnv)
+    return _ENVCLS[0]
+
+
+class Impl:
+    def __init__(self, kind, size, auto_reload, names, base):
+        import jinja2
+
+        CountingEnv = _counting_env()
         self.kind = kind
         self.size = size
         self.names = names
@@ -256,8 +268,7 @@ class Impl:
             self.loaders = [jinja2.FunctionLoader(load)]
         elif kind == "fs":
             self.dir = _fs_dir(base)
-            for f in os.listdir(self.dir):
-                os.remove(os.path.join(self.dir, f))
+            weakref.finalize(self, shutil.rmtree, self.dir, True)
             self.loaders = [jinja2.FileSystemLoader(self.dir)]
         elif kind == "choice":
             self.loaders = [jinja2.ChoiceLoader([jinja2.DictLoader(self.stores[0]), jinja2.DictLoader(self.stores[1])])]
